@@ -226,6 +226,15 @@ def replay_trace_concrete(cfg: dict, inp: dict) -> dict:
     bad = []
     mT, oT = run(cfg)
     mU, oU = run(dict(cfg, tracer=None))
+    mO, oO = run(dict(cfg, tracer=False))
+    for j in range(L):
+        if not mO.trace[j].is_empty() or mO.trace[j].index:
+            bad.append(f'trace written at position {j} with tracing off (trace=False): labels {list(mO.trace[j].index)}')
+        if j != tc and (not mT.trace[j].is_empty() or mT.trace[j].index):
+            bad.append(f'trace written at position {j} != t')
+    for k in OBS:
+        if oO[k] != oU[k]:
+            bad.append(f'trace-off vs untraced: {k} {oO[k]!r} != {oU[k]!r}')
     for k in OBS:
         if oT[k] != oU[k]:
             bad.append(f'traced vs untraced: {k} {oT[k]!r} != {oU[k]!r}')
